@@ -81,6 +81,9 @@ void harness(void)
     constructed = 1;
     uint64_t size = nondet_u16(), count = nondet_u8(), k = nondet_u8();
     ASSUME(size >= 1 && count >= 1 && count <= 8 && k <= 6);
+#ifdef STD_LEAF
+    ASSUME(k <= 4);       /* a standard-library style Allocator serves fundamental alignments only (allocator_traits::max_alignment) */
+#endif
     uint64_t al = UINT64_C(1) << k;
     nlog = 0;
     CLEAR_EXC();
@@ -167,6 +170,9 @@ void harness(void)
         ASSERT(mutex_held == 0 && n_lock == n_unlock, "C13: mutex released after the release");
     }
     /* size queries are forwarding members too */
+#ifdef TRAITS_DEFAULTS
+    ASSERT(WF(max_node_size)(O) == ~UINT64_C(0) && WF(max_array_size)(O) == ~UINT64_C(0) && WF(max_alignment)(O) == 16, "C18: allocator_traits defaults for a leaf without size queries: no size limit, fundamental alignment");
+#endif
     (void)WF(max_node_size)(O); (void)WF(max_array_size)(O); (void)WF(max_alignment)(O);
     ASSERT(mutex_held == 0 && n_lock == n_unlock, "C13: mutex released after the size queries");
 #ifdef LOCK_PROXY
